@@ -143,6 +143,21 @@ class EncodeState:
                     EncodeError)
                 internal_value = int(internal_value)
 
+            # make sure that the value is representable using the
+            # specified number of bits: two-complement covers
+            # [-2^(n-1), 2^(n-1) - 1], one-complement and
+            # sign-magnitude cover [-(2^(n-1) - 1), 2^(n-1) - 1]
+            if base_type_encoding in (None, Encoding.TWOC, Encoding.ONEC, Encoding.SM):
+                max_value = (1 << max(bit_length - 1, 0)) - 1
+                min_value = -max_value
+                if base_type_encoding in (None, Encoding.TWOC) and bit_length > 0:
+                    min_value -= 1
+                if internal_value < min_value or internal_value > max_value:
+                    odxraise(
+                        f"The value '{internal_value!r}' cannot be encoded using "
+                        f"{bit_length} bits.", EncodeError)
+                    internal_value = max(min_value, min(max_value, internal_value))
+
             if base_type_encoding == Encoding.ONEC:
                 # one-complement
                 if internal_value >= 0:
